@@ -91,6 +91,7 @@ let pr_rval (v : rval) : string =
   | RInt z -> "i" ^ string_of_z z
   | RChar c -> "c" ^ string_of_int (int_of_n c)
   | RStr s -> "x" ^ hexs s
+  | RFloat z -> "d" ^ string_of_z z
 
 let pr_tables (t : tables) : string =
   let b = Buffer.create 4096 in
@@ -149,6 +150,7 @@ let p_rval (s : string) : rval =
   | 'i' -> RInt (z_of_string rest)
   | 'c' -> RChar (n_of_int (int_of_string rest))
   | 'x' -> RStr (unhexs rest)
+  | 'd' -> RFloat (z_of_string rest)
   | _ -> failwith "rval"
 
 let p_tables (s : string) : tables =
